@@ -354,6 +354,9 @@ func (c *Ctx) ExtraViolation(msg string, detail interface{}) {
 
 func writeEvidence(c *Ctx, ev *Evidence) {
 	dir := filepath.Join(verifDir(), "evidence")
+	if d := os.Getenv("VERIF_EVIDENCE_DIR"); d != "" {
+		dir = d
+	}
 	os.MkdirAll(dir, 0o755)
 	b, err := json.MarshalIndent(ev, "", " ")
 	if err != nil {
@@ -375,6 +378,9 @@ type replayFile struct {
 
 func writeReplay(c *Ctx, idx, vi int, v CaseViolation) string {
 	dir := filepath.Join(verifDir(), "replays", c.ID)
+	if d := os.Getenv("VERIF_REPLAY_DIR"); d != "" {
+		dir = filepath.Join(d, c.ID)
+	}
 	os.MkdirAll(dir, 0o755)
 	name := fmt.Sprintf("seed%d_%s_case%d_%d.json", c.Seed, c.Tier, idx, vi)
 	path := filepath.Join(dir, name)
